@@ -290,7 +290,7 @@ func (x *c23) buildImport(st kernel.Step) *pend {
 	w.nTx++
 	param := &ccom.EntranceParam{SourceChainID: srcChainID, Height: uint32(height), Proof: pj, RelayerAddress: rel.Address[:], Extra: msg}
 	ic := &impCase{dep: dep, node: node, mode: mode, mut: mut, param: param, msg: msg, wantOK: 0}
-	if dep.Acct == 0 && node.State.Has(dep.Idx) && mutPreserves(mut) {
+	if dep.Acct == 0 && node.State.Has(dep.Idx) && mutPreserves(mut) && dep.Short == nil {
 		ic.wantOK = 1
 	}
 	if other == dep || mut == mutKeyProofMismatch || mut == mutHeightShift || (mut == mutOtherContract && dep.Acct == 1) || mut == mutForeignAccountProof && dep.Acct == 1 {
@@ -428,6 +428,13 @@ func (x *c23) onImport(tr *e1.TxTrace, pre, post sview, p *pend) {
 		return
 	}
 	x.sig = append(x.sig, byte(ic.mode), byte(ic.mut), boolByte(tr.OK))
+	if ic.dep.Short != nil && ic.dep.Ground && mutPreserves(ic.mut) && why == "value-is-not-hash-of-message" {
+		// a valid proof of a short non-hash value, with a message whose hash merely ENDS in it
+		run.Fault(fmt.Sprintf("ground_message_for_%d_byte_slot_value", len(ic.dep.Short)))
+		if !tr.OK {
+			run.Probe("ground_message_against_short_value_rejected")
+		}
+	}
 	if !tr.OK {
 		run.Probe("rejected:" + why)
 		if why == "not-enough-confirmations" && ic.conf == int64(w.bw)-1 && ic.wantOK == 1 && ic.canon {
@@ -443,6 +450,9 @@ func (x *c23) onImport(tr *e1.TxTrace, pre, post sview, p *pend) {
 	run.Probe("deposit_accepted")
 	if ic.conf == int64(w.bw) {
 		run.Probe("confirmation_boundary_exact")
+	}
+	if ic.dep.LeadZero && bytes.Equal(ic.msg, ic.dep.Msg) {
+		run.Probe("accepted_message_hash_with_leading_zero_byte")
 	}
 	if ic.mut != mutNone {
 		run.Probe("accepted_with:" + mutNames[ic.mut])
@@ -507,7 +517,18 @@ func genC23(rng *kernel.RNG, idx int, tier string) *kernel.Plan {
 		if rng.Chance(0.15) {
 			acct = 1
 		}
-		steps = append(steps, kernel.Step{Op: "dep", A: []int64{int64(e), int64(acct), int64(rng.Intn(8)), int64(rng.Intn(1 << 12))}})
+		kind := rng.Intn(8)
+		switch r := rng.Intn(100); {
+		case r < 12:
+			kind = depShort1
+		case r < 15:
+			kind = depShort2
+		case r < 21:
+			kind = depShortEdge
+		case r < 29:
+			kind = depLeadZero
+		}
+		steps = append(steps, kernel.Step{Op: "dep", A: []int64{int64(e), int64(acct), int64(kind), int64(rng.Intn(1 << 12))}})
 	}
 	imp := func(mode int) kernel.Step {
 		mut := mutNone
@@ -599,7 +620,7 @@ func init() {
 	kernel.Register(&kernel.Check{
 		ID: "C23", Level: "exploration", Engine: "E1 cluster + lceth (simulated Ethereum PoW chain with EVM state tries)",
 		Rule: "case = one import (ImportExTransfer through the ETH router) of a deposit of the simulated EVM state: block tree as in C27 (reorg shapes), 3-10 deposits (slot -> keccak256(message)) written into the " +
-			"CCMC's or another contract's storage at chosen blocks, BlocksToWait 1-5; the relayer follows the tree (forks, reorgs, restarts) and submits eth_getProof answers built with go-ethereum's trie.Prove: " +
+			"CCMC's or another contract's storage at chosen blocks (some CCMC slots hold short NON-hash values 0x01..0xff, 2 bytes, 0x00, 0x0100, 0x80, 0x7f and are claimed with a message ground so that its hash ends in the value; some genuine messages are ground to a hash with a leading zero byte), BlocksToWait 1-5; the relayer follows the tree (forks, reorgs, restarts) and submits eth_getProof answers built with go-ethereum's trie.Prove: " +
 			"at confirmations BlocksToWait-2/-1/0/+1 relative to the tracked head, for stored non-canonical blocks, for blocks removed by a reorg, for blocks the light client has not seen, with 18 proof " +
 			"mutations (re-ordered/duplicated/dropped/truncated node lists, foreign account proof, other contract, other slot, key/proof mismatch, altered/other message, swapped storage hash, altered account " +
 			"field, junk node, shifted height, wrong proof counts) and 3 hex formats; every import is judged in BOTH directions against a reference (own MPT verifier over the node set, confirmations from the " +
@@ -610,7 +631,8 @@ func init() {
 			"a proof is a set of nodes: re-ordered, duplicated or supernumerary nodes do not invalidate it", "messages are well-formed MakeTxParam encodings without trailing bytes"},
 		QuickRuns: 128, ThoroughRuns: 9000, QuickCap: 60, ThoroughCap: 840,
 		RequiredProbes: []string{"honest_headers_mostly_accepted", "confirmation_boundary_exact", "rejected_one_confirmation_short", "proof_for_noncanonical_block", "rejected_after_reorg_removed_block", "deposit_accepted",
-			"accepted_with:reorder-account-nodes", "accepted_with:duplicate-nodes", "rejected:not-the-registered-contract", "rejected:value-is-not-hash-of-message", "rejected:account-proof-does-not-verify", "rejected:storage-proof-does-not-verify"},
+			"accepted_with:reorder-account-nodes", "accepted_with:duplicate-nodes", "rejected:not-the-registered-contract", "rejected:value-is-not-hash-of-message", "rejected:account-proof-does-not-verify", "rejected:storage-proof-does-not-verify",
+			"ground_message_against_short_value_rejected", "accepted_message_hash_with_leading_zero_byte"},
 		Generate: genC23,
 		Execute:  execC23,
 	})
